@@ -206,11 +206,16 @@ def gen_comm(r, sid, klass=None, with_limits=False, with_time=False, big=False):
             # communicate(&str): the input must be valid UTF-8
             inp = C.enc_units([65 + (i * 7) % 26 for i in range(min(inlen, 3000))])
             inlen = min(inlen, 3000)
+    # a signal handler of the caller interrupts the k-th poll() of the exchange (EINTR): the read reports that error
+    # (never a timeout, never a longer wait) and a later read resumes
+    intr = r.choice([1, 2, 3, 6]) if r.chance(1, 5) else 0
+    if intr:
+        reads = reads + [["b", "-", reads[-1][2] if reads[-1][2] != "-" and with_time else "-"], ["b", "-", "-"]]
     work = inlen + nout[0] + nerr[0]
     maxcalls = 4 * (work // 1 if work < 3000 else work // 64) + 40 * len(ops) + 4000 + 400 * len(reads)
     text = "\n".join([
         "scn %s" % sid,
-        "comm %d %d %d %d %d %d" % (pi, po, pe, caps[0], caps[1], caps[2]),
+        "comm %d %d %d %d %d %d %d" % (pi, po, pe, caps[0], caps[1], caps[2], intr),
         "input %s" % inp,
         "prog %s" % (";".join(ops) if ops else "-"),
         "choices %s" % (",".join(str(c) for c in choices) if choices else "-"),
@@ -218,7 +223,7 @@ def gen_comm(r, sid, klass=None, with_limits=False, with_time=False, big=False):
         "reads %s" % ";".join(":".join(x) for x in reads),
     ])
     return {"id": sid, "kind": "comm", "klass": klass, "piped": (pi, po, pe), "caps": caps, "input": inp, "inlen": inlen,
-            "ops": ops, "reads": reads, "text": text, "nout": nout[0], "nerr": nerr[0]}
+            "ops": ops, "reads": reads, "text": text, "nout": nout[0], "nerr": nerr[0], "intr": intr}
 
 
 # ------------------------------------------------------------------ scenario generation (popen)
@@ -255,7 +260,8 @@ def gen_popen(r, sid, focus=None):
     dies = r.chance(1, 2)
     names = []
     n = r.choice([1, 3, 6, 12, 30])
-    pool = ["poll", "poll", "pid", "status", "term", "kill", "sig%d" % r.choice([0, 1, 2, 10, 15, 19, 1 + r.below(64)]),
+    # "for all signal numbers": also numbers no signal has (the kernel refuses them; what is passed must be the number given)
+    pool = ["poll", "poll", "pid", "status", "term", "kill", "sig%d" % r.choice([0, 1, 2, 10, 15, 19, 1 + r.below(64), 271, 265, 65537, 300, 4096 + 9]),
             "detach"] + ["wt%d" % r.choice(durs) for _ in range(3)]
     for _ in range(n):
         names.append(r.choice(pool))
@@ -271,13 +277,25 @@ def gen_popen(r, sid, focus=None):
     # a one-hour wait makes 36000 iterations of 4 calls
     longest = max([int(x[2:]) for x in names if x.startswith("wt")] + [0])
     maxcalls = 2000 + 60 * len(names) + 5 * (longest // (100 * MS) + 40) * max(1, sum(1 for x in names if x.startswith("wt")))
+    # weeks: the caller is not scheduled for 25 days during one of the sleeps of a 26-30 day wait (any schedule),
+    # the child exits shortly afterwards
+    big = (0, 0)
+    if focus == "weeks":
+        days = 86400 * 1000 * MS
+        d = r.choice([26, 27, 30]) * days
+        names = ["wt%d" % d] + r.choice([[], ["poll"], ["status", "pid"]])
+        exit_kind, raw, expect = "code", 5 << 8, "exited:5"
+        te = 25 * days + r.choice([2000 * MS, 10 * 1000 * MS])
+        reap, dies = None, False
+        big = (r.choice([1, 2, 4, 7]), 25 * 86400)
+        maxcalls = 20000
     # a signal handler of the caller interrupts the k-th blocking waitpid (EINTR): an error, never a status
     intr = 0
     if "wait" in names and r.chance(1, 4):
         intr = 1
     text = "\n".join([
         "scn %s" % sid,
-        "popen %s %d %s %d %d" % ("never" if te is None else te, raw, "never" if reap is None else reap, dies, intr),
+        "popen %s %d %s %d %d %d %d" % ("never" if te is None else te, raw, "never" if reap is None else reap, dies, intr, big[0], big[1]),
         "choices %s" % (",".join(str(c) for c in choices) if choices else "-"),
         "maxcalls %d" % maxcalls,
         "ops %s" % ";".join(names),
